@@ -28,8 +28,12 @@ def describe(v):
     return f"shape {v.shape} {v.ravel()[:10].tolist()}"
 
 
+COMPARISONS = [0]
+
+
 def compare_graphs(before, after, args, optimizations, passes):
     """-> None or a description of the disagreement"""
+    COMPARISONS[0] += 2 + sum(1 for a in args if isinstance(a, np.ndarray))      # outputs, fixed point, in-place effect per tensor input
     import einx._src.tracer as tracer
     a1 = [np.array(a, copy=True, order="K") if isinstance(a, np.ndarray) else a for a in args]
     a2 = [np.array(a, copy=True, order="K") if isinstance(a, np.ndarray) else a for a in args]
@@ -94,6 +98,7 @@ def work_corpus(chunk):
                 if len(bad) < 5:
                     bad.append(({"kind": "corpus", "op": call.op, "desc": call.desc, "shapes": str(j["shapes"]), "backend": be},
                                 f"optimising the graph of einx.{call.op}({call.desc!r}, shapes={j['shapes']}, backend={be}): {msg}", {"call": j, "backend": be, "seed": seed}))
+    hist["comparisons"] = COMPARISONS[0]; COMPARISONS[0] = 0
     return dict(hist), bad
 
 
@@ -220,6 +225,7 @@ def work_chains(unit):
                 if len(bad) < 5:
                     bad.append(({"kind": "chain", "spec": json.dumps([list(shape), [[s[0]] + [list(v) for v in s[1:]] for s in steps]]), "shared": str(shared)},
                                 f"chain on input shape {shape}: {steps} (shared={shared}): {msg}", {"spec": [list(shape), [[s[0]] + [list(v) for v in s[1:]] for s in steps]], "shared": shared}))
+    hist["comparisons"] = COMPARISONS[0]; COMPARISONS[0] = 0
     return dict(hist), bad
 
 
@@ -259,10 +265,10 @@ def run(ctx):
         ctx.sample({"captured_graph_pair_of": f"einx.{j['op']}({j['desc']!r})", "shapes": j["shapes"]})
     programs = hist.get("corpus:pairs", 0) + hist.get("chain:programs", 0)
     ctx.coverage = {
-        "programs": programs, "disagreements_checked": programs, "exhaustive": True,
+        "programs": programs, "disagreements_checked": hist.get("corpus:comparisons", 0) + hist.get("chain:comparisons", 0), "exhaustive": True,
         "corpus_graph_pairs": hist.get("corpus:pairs", 0), "synthetic_chains": hist.get("chain:programs", 0), "chain_specs": len(specs),
         "max_passes_seen": max([int(k.split("=")[1]) for k in hist if "passes=" in k] or [0]),
-        "rule": "program = (graph before optimisation, graph after) pair; corpus pairs captured from real calls on all three backends; synthetic chains = all transpose pairs "
+        "rule": "disagreements_checked = individual before/after comparisons made (outputs, post-state of each tensor input, fixed point). program = (graph before optimisation, graph after) pair; corpus pairs captured from real calls on all three backends; synthetic chains = all transpose pairs "
                 "(ranks<=4, triples for rank<=3; rank 5 in thorough), all reshape triples over ordered factorizations of 12 (and 24), mixed transpose/reshape/broadcast/concatenate "
                 "chains with no-ops, each x 3 sharing variants; both graphs interpreted on injective contents with pairwise distinct lengths; outputs, dtypes, shapes and "
                 "post-state of inputs compared; pass count <= 25; re-optimisation must be a no-op",
